@@ -466,6 +466,217 @@ def pylit(v):
     return ("num", v) if isinstance(v, float) else ("str", v)
 
 
+# ---------------------------------------------------------------- names FIRST assigned inside a match case
+# A case is a scope of its own: a name its body creates -- by an assignment used as the (expression) body, inside a larger
+# expression, in a nested match, in a call argument, or by the statements of a block body -- is gone when the case is finished,
+# with and without names bound by the pattern; nothing accumulates from one record to the next.  Existing globals keep what a
+# body assigns to them.  Names are probed from inside a function (a read at the top level would create them there).
+
+ML_NAMES = ["t", "u", "seen", "acc"]
+ML_FORMS = ["asg", "asg", "asg-paren", "accum", "accum", "sum", "arr", "nested", "nested-bind", "chain", "arg", "global", "read",
+            "blk-assign", "blk-incr", "blk-asg", "blk-forin", "blk-if", "blk-nested", "blk-global"]
+
+
+def ml_body(rng, bound, host, form=None):
+    """(kind, body) of one case; bound: names its pattern binds"""
+    t, u = rng.sample(ML_NAMES, 2)
+    g = rng.choice(callref.GLOBALS[:3])
+    vals = [_n(rng.randint(1, 9)), ("str", rng.choice(["x", "yes"]))] + [_v(b) for b in bound] * 2
+    if host != "begin":
+        vals.append(("dollar",))
+    val, val2 = rng.choice(vals), rng.choice(vals)
+    num = _n(float(rng.randint(1, 9)))
+    B = ("str", "B")
+    form = form or rng.choice(ML_FORMS)
+    if form == "asg":
+        return "expr", ("asg", t, val)
+    if form == "asg-paren":
+        return "expr", ("asg", t, val, True)
+    if form == "accum":
+        return "expr", ("asg", t, ("bin", "+", _v(t), num))
+    if form == "sum":
+        return "expr", ("bin", "+", ("asg", t, num, True), _v(t))
+    if form == "arr":
+        return "expr", ("arr", [("asg", t, val), _v(t), ("asg", u, val2)])
+    if form == "nested":
+        return "expr", ("match", num, [([("plit", num[1])], "expr", ("asg", t, val))])
+    if form == "nested-bind":
+        return "expr", ("match", val, [([("pname", "mm")], "expr", ("asg", t, _v("mm")))])
+    if form == "chain":
+        return "expr", ("asg", t, ("asg", u, val, True))
+    if form == "arg":
+        return "expr", ("call", "id_", [("asg", t, val)])
+    if form == "global":
+        return "expr", ("asg", g, ("bin", "+", _v(g), num))
+    if form == "read":
+        return "expr", ("bin", "+", _v(t), num)
+    if form == "blk-assign":
+        return "block", [("assign", t, val), ("print", [B, _v(t)])]
+    if form == "blk-incr":
+        return "block", [("incr", t), ("incr", t), ("print", [B, _v(t)])]
+    if form == "blk-asg":
+        return "block", [("expr", ("asg", t, val)), ("assign", u, _v(t)), ("print", [B, _v(u)])]
+    if form == "blk-forin":
+        return "block", [("forin", t, ("arr", [num, val]), [("assign", g, ("bin", "+", _v(g), _n(1)))]), ("print", [B, _v(t)])]
+    if form == "blk-if":
+        return "block", [("if", ("bin", ">", num, _n(4)), [("assign", t, val)], [("assign", u, val2)]), ("print", [B, _v(t), _v(u)])]
+    if form == "blk-nested":
+        return "block", [("assign", g, ("match", num, [([("plit", num[1])], "expr", ("asg", t, val))])), ("print", [B, _v(g)])]
+    return "block", [("assign", g, ("bin", "+", _v(g), num))]
+
+
+def ml_probe_funcs():
+    return [("id_", ["x_"], [("return", _v("x_"))]),
+            ("pr_", [], [("print", [("str", "P")] + [_v(x) for x in ML_NAMES])])]
+
+
+def match_local_program(rng, form=None):
+    """(program, input values): matches whose bodies create names, in BEGIN / a rule over several records / a function"""
+    host = rng.choice(["begin", "rule", "rule", "func"])
+    pool = rng.choice([[1.0, 2.0, 3.0], ["a", "b", "c"]])
+    docs = [rng.choice(pool) for _ in range(rng.randint(2, 7))]
+    probe = ("expr", ("call", "pr_", []))
+    first = [True]
+
+    def one_match(subj):
+        pair = rng.random() < 0.25         # the subject wrapped into an array, array patterns with and without names
+        cases = []
+        nc = rng.randint(1, 3)
+        for ci in range(nc):
+            bind = rng.random() < 0.3
+            f = form if first[0] else None
+            first[0] = False
+            if bind:
+                kd, body = ml_body(rng, ["m"], host, f)
+                pats = [("parr", [("pname", "m"), ("plit", 7.0)])] if pair else [("pname", "m")]
+            else:
+                kd, body = ml_body(rng, [], host, f)
+                vs = rng.sample(pool, rng.randint(1, 2)) if ci < nc - 1 or rng.random() < 0.5 else list(pool)
+                pats = [("parr", [("plit", v), ("plit", 7.0)]) if pair else ("plit", v) for v in vs]
+            cases.append((pats, kd, body))
+        return ("match", ("arr", [subj, _n(7.0)]) if pair else subj, cases)
+
+    def use(subj):
+        m = one_match(subj)
+        w = rng.random()
+        if w < 0.4:
+            st = [("expr", m)]
+        elif w < 0.75:
+            st = [("print", [("str", "M"), m])]
+        else:
+            st = [("assign", "g3", m), ("print", [("str", "A"), _v("g3")])]
+        if rng.random() < 0.75:
+            st.append(probe)
+        return st
+
+    funcs = ml_probe_funcs()
+    begin = [("assign", g, _n(i + 1)) for i, g in enumerate(callref.GLOBALS)]
+    rules = []
+    if host == "begin":
+        for v in docs:
+            begin += use(pylit(v))
+    elif host == "rule":
+        body = use(("dollar",))
+        if rng.random() < 0.4:
+            body += use(("dollar",))
+        rules.append((None, body))
+    else:
+        body = use(_v("subj"))
+        if rng.random() < 0.4:
+            body += use(_v("subj"))
+        funcs.append(("mf", ["subj"], body + [("return", _v(rng.choice(ML_NAMES)))]))
+        rules.append((None, [("print", [("str", "R"), ("call", "mf", [("dollar",)])]), probe]))
+    end = [probe, ("print", [("str", "D")] + [_v(x) for x in ML_NAMES] + [_v(g) for g in callref.GLOBALS])]
+    if rng.random() < 0.5:
+        rng.shuffle(funcs)
+    return {"funcs": funcs, "begin": begin, "rules": rules, "end": end}, docs
+
+
+# ---------------------------------------------------------------- names FIRST assigned inside a call ARGUMENT
+# f(t = 5): the argument expressions are the caller's, so t is the caller's variable -- there after the call when the caller is
+# BEGIN or a rule, gone with the calling function or the match case when the caller is one -- and never the callee's, also when
+# a parameter of the callee has the same name, when the argument is surplus, or when the call is itself an argument.
+
+AA_FORMS = ["plain", "plain", "same-name", "two", "surplus0", "surplus1", "nested", "repeat", "cond", "printed", "paren"]
+
+
+def aa_stmts(rng, val, form=None):
+    t, u = rng.sample(ML_NAMES, 2)
+    if rng.random() < 0.5:
+        t = "t"
+    v2 = _n(rng.randint(1, 9))
+    T = ("str", "T")
+    form = form or rng.choice(AA_FORMS)
+    if form == "plain":
+        return [("expr", ("call", "f1", [("asg", t, val)])), ("print", [T, _v(t)])]
+    if form == "paren":
+        return [("assign", "g3", ("call", "f1", [("asg", t, val, True)])), ("print", [T, _v(t), _v("g3")])]
+    if form == "same-name":
+        return [("print", [("str", "C"), ("call", "ft", [("asg", "t", val)])]), ("print", [T, _v("t")])]
+    if form == "two":
+        return [("print", [("str", "C"), ("call", "f2", [("asg", t, val), ("asg", u, v2)])]), ("print", [T, _v(t), _v(u)])]
+    if form == "surplus0":
+        return [("expr", ("call", "f0", [("asg", t, val)])), ("print", [T, _v(t)])]
+    if form == "surplus1":
+        return [("expr", ("call", "f1", [v2, ("asg", t, val), ("asg", u, v2)])), ("print", [T, _v(t), _v(u)])]
+    if form == "nested":
+        return [("print", [("str", "C"), ("call", "id_", [("call", rng.choice(["f1", "ft", "id_"]), [("asg", t, val)])])]), ("print", [T, _v(t)])]
+    if form == "repeat":
+        return [("expr", ("call", "f1", [("asg", t, ("bin", "+", _v(t), v2))]))] * rng.randint(2, 3) + [("print", [T, _v(t)])]
+    if form == "cond":
+        return [("if", ("bin", ">", ("call", "f1", [("asg", t, v2)]), _n(0)), [("print", [("str", "Y"), _v(t)])], [("print", [("str", "N")])]),
+                ("print", [T, _v(t)])]
+    return [("print", [("str", "C"), ("call", "f1", [("asg", t, val)]), ("call", "id_", [("asg", u, v2)])]), ("print", [T, _v(t), _v(u)])]
+
+
+def arg_assign_program(rng, form=None):
+    host = rng.choice(["begin", "rule", "func", "func", "match", "match-expr"])
+    probe = ("expr", ("call", "pr_", []))
+    funcs = ml_probe_funcs() + [
+        ("f1", ["a"], [("assign", "a", ("bin", "+", _v("a"), _n(1))), ("return", _v("a"))]),
+        ("f2", ["a", "b"], [("assign", "g0", ("bin", "+", _v("g0"), _n(1))), ("return", ("arr", [_v("a"), _v("b")]))]),
+        ("ft", ["t"], [("assign", "t", ("bin", "+", _v("t"), _n(1))), ("return", _v("t"))]),
+        ("f0", [], [("return", _n(0))])]
+    begin = [("assign", g, _n(i + 1)) for i, g in enumerate(callref.GLOBALS)]
+    docs = [float(rng.randint(1, 9)) for _ in range(rng.randint(1, 4))]
+    rules = []
+    lit = _n(rng.randint(1, 9))
+    if host == "begin":
+        begin += aa_stmts(rng, lit, form) + [probe]
+        if rng.random() < 0.4:
+            begin += aa_stmts(rng, lit) + [probe]
+    elif host == "rule":
+        rules.append((None, aa_stmts(rng, rng.choice([("dollar",), lit]), form) + [probe]))
+    elif host == "func":
+        # the caller is a function: the name lives as long as that call
+        funcs.append(("cf", ["x"], aa_stmts(rng, rng.choice([_v("x"), lit]), form) + [probe, ("return", _v("t"))]))
+        rules.append((None, [("print", [("str", "R"), ("call", "cf", [("dollar",)])]), probe]))
+    elif host == "match":
+        rules.append((None, [("expr", ("match", ("dollar",), [([("pname", "m")], "block", aa_stmts(rng, rng.choice([_v("m"), lit]), form) + [probe])])), probe]))
+    else:
+        t = rng.choice(ML_NAMES)
+        arg = ("asg", t, rng.choice([("dollar",), lit]))
+        case = rng.choice([([("pname", "m")], "expr", ("call", "f1", [arg])),
+                           ([("plit", d) for d in sorted(set(docs))], "expr", ("call", rng.choice(["f1", "ft", "f0"]), [arg]))])
+        rules.append((None, [("print", [("str", "M"), ("match", ("dollar",), [case])]), probe]))
+    end = [probe, ("print", [("str", "D")] + [_v(x) for x in ML_NAMES] + [_v(g) for g in callref.GLOBALS])]
+    if rng.random() < 0.5:
+        rng.shuffle(funcs)
+    return {"funcs": funcs, "begin": begin, "rules": rules, "end": end}, docs
+
+
+# ---------------------------------------------------------------- recursion through calls written as ARGUMENTS
+# add(1, S(n - 1)): the arguments are evaluated before add is entered, so the recursion is as deep as S nests, whatever else
+# the argument list holds.  (name, source, frames per level, frames at the bottom)
+ARG_DEPTH_SHAPES = [
+    ("S", "function add(a, b) { return a + b }\nfunction S(n) { if (n <= 0) return 0\n return add(1, S(n - 1)) }", 1, 1),
+    ("T", "function id(x) { return x }\nfunction T(n) { if (n <= 0) return 0\n return id(id(T(n - 1))) + 1 }", 1, 1),
+    ("U", "function add(a, b) { return a + b }\nfunction U(n) { if (n <= 0) return 0\n return add(add(0, 1), add(U(n - 1), 0)) }", 1, 1),
+    ("W", "function pick(a, b, c) { return b }\nfunction W(n) { if (n <= 0) return 0\n return pick(t_ = n, W(n - 1) + 1, 7) }", 1, 1),
+    ("X", "function add(a, b) { return a + b }\nfunction X(n) { if (n <= 0) return 0\n return add(1, match (n) { m => X(m - 1) }) }", 2, 1),
+]
+
+
 class C08(Check):
     pid = "C08"
     props = ["C08_frames.v"]
@@ -482,7 +693,16 @@ class C08(Check):
             "directly, through a second function, in permuted order, changed at both levels) and then assigned, incremented, op='d "
             "or used as a container by the callee: the caller's container and the document are printed unchanged; matches with 1-3 "
             "cases x 1-3 alternatives where alternatives bind names (also in nested patterns) and then fail on a later literal, the "
-            "bodies reading every name and assigning to / incrementing globals of the leaked names, globals printed after the match. non-trivial = at least one "
+            "bodies reading every name and assigning to / incrementing globals of the leaked names, globals printed after the match; names FIRST "
+            "assigned inside a case -- an assignment as the expression body (bare, parenthesised, chained, accumulating, inside a sum / array / "
+            "nested match / call argument) or the statements of a block body (assignment, ++, for-in variable, under if, nested match), under "
+            "literal, alternative, array and name-binding patterns, in BEGIN, over several records, inside a function -- probed from a function "
+            "after every match and at the end: gone, nothing accumulates, globals keep their stores; names first assigned inside a call ARGUMENT "
+            "(f(t = 5), parameter of the same name, several / surplus arguments, nested and repeated calls, in a condition) with BEGIN, a rule, "
+            "a function or a match case as the caller: the caller's variable, for as long as the caller lives; recursion whose recursive call is "
+            "written as an argument of another call (add(1, S(n - 1)), id(id(T(n - 1))), next to an assignment argument, through a match) at depths "
+            "3 .. limit - 40 (must work, also after thousands of completed calls) and limit + 40 .. 2 x limit (refused), the two depths at the limit "
+            "itself by model agreement. non-trivial = at least one "
             "call or match completes before another begins")
 
     def generate(self, rng, tier):
@@ -660,6 +880,59 @@ class C08(Check):
             cases.append(Case(cid, simple_run(cid, prog, [inp]), {"prog": prog, "input": inp, "outcome": outcome, "stdout": out, "fam": "match-residue",
                                                                   "what": "multi-alternative cases; alternatives that bind names and then fail; the bodies assign to globals of those names"},
                               leak > 0))
+        # ---- names first assigned inside a match case (expression and block bodies, nested, with and without bindings)
+        n = 300 if tier == "quick" else 6000
+        k = 0
+        while k < n:
+            p, docs = match_local_program(rng, ML_FORMS[k % len(ML_FORMS)] if k < 3 * len(ML_FORMS) else None)
+            it = callref.Interp(p, L, max_steps=60000)
+            try:
+                outcome, out = it.run(docs)
+            except (callref.TooDeep, RecursionError):
+                continue
+            cid = "n%d" % k
+            k += 1
+            prog = callref.src_program(p)
+            inp = json.dumps(docs)
+            cases.append(Case(cid, simple_run(cid, prog, [inp]), {"prog": prog, "input": inp, "outcome": outcome, "stdout": out, "fam": "match-local",
+                                                                  "what": "names first assigned inside match case bodies, probed after the match and at the end"},
+                              it.completed >= 2))
+        # ---- names first assigned inside a call argument
+        n = 220 if tier == "quick" else 5000
+        k = 0
+        while k < n:
+            p, docs = arg_assign_program(rng, AA_FORMS[k % len(AA_FORMS)] if k < 4 * len(AA_FORMS) else None)
+            it = callref.Interp(p, L, max_steps=60000)
+            try:
+                outcome, out = it.run(docs)
+            except (callref.TooDeep, RecursionError):
+                continue
+            cid = "g%d" % k
+            k += 1
+            prog = callref.src_program(p)
+            inp = json.dumps(docs)
+            cases.append(Case(cid, simple_run(cid, prog, [inp]), {"prog": prog, "input": inp, "outcome": outcome, "stdout": out, "fam": "arg-assign",
+                                                                  "what": "names first assigned inside call arguments belong to the caller"}, True))
+        # ---- recursion through calls written as arguments of other calls: as deep as the calls really nest
+        for si, (fn, src, per_level, base) in enumerate(ARG_DEPTH_SHAPES):
+            near = (L - 40 - base) // per_level
+            for d in sorted({3, 50, L // 2, near, (L - base) // per_level, (L - base) // per_level + 1, (L + 40) // per_level + 1, 2 * L}):
+                for hist in ((0, rng.randint(L + 10, 2 * L)) if (si < 2 and d == near) or tier != "quick" else (0,)):
+                    depth = per_level * d + base        # frames live at the deepest point
+                    cid = "e%s%d_%d" % (fn, d, hist)
+                    pre = ""
+                    if hist:
+                        pre = "for (i = 0; i < %d; i++) { s = s + %s(1) }\n print s\n" % (hist, fn)
+                    prog = "%s\nBEGIN { %sprint 'A'\n print %s(%d)\n print 'Z' }" % (src, pre, fn, d)
+                    pre_out = "%d\n" % hist if hist else ""
+                    meta = {"prog": prog, "input": None, "nested_frames": depth, "limit": L, "fam": "arg-depth"}
+                    if depth <= L - 32:
+                        meta["outcome"], meta["stdout"] = "ok", pre_out + "A\n%d\nZ\n" % d
+                    elif depth >= L + 32:
+                        meta["outcome"], meta["stdout"] = "runtime", pre_out + "A\n"
+                    else:
+                        meta["note"] = "within 32 frames of the limit: model agreement only"
+                    cases.append(Case(cid, simple_run(cid, prog, [], fuzz=False), meta, hist > 0 or depth > 64, ("depth",)))
         return cases
 
     def oracle(self, case, impl):
